@@ -4973,6 +4973,11 @@ class PyCdlib:
         if num_old != 1:
             raise pycdlibexception.PyCdlibInvalidInput('Exactly one old path must be specified')
 
+        if 'data_continuation' in kwargs:
+            # This is how the later records of a file of more than one extent
+            # are added internally; it switches off the check for duplicates.
+            raise pycdlibexception.PyCdlibInvalidInput('Unknown keyword data_continuation')
+
         # Once we've iterated over the keys we know about, remove them from
         # the map so that _add_hard_link_to_inode() can parse the rest.
         for key in keys_to_remove:
